@@ -110,7 +110,7 @@ def _memops():
 MEMOPS = _memops()
 
 
-def memop_jobs(ctx, kinds, solver="sat"):
+def memop_jobs(ctx, kinds, solver=os.environ.get("VERIF_MEMOP_SOLVER", "sat")):
     """one contract per load/store opcode (kinds: 0 plain load, 1 plain store, 2 atomic load, 3 atomic store) at every stack height;
     THOROUGH tier only: non-zero and zero offsets, compact output; no growth of the type stack (NO_GROW; growth: E.h.load / E.h.store)"""
     jobs = []
